@@ -55,7 +55,7 @@ theorem Pfx.nil : Pfx [] := WireIs.nil.pfx_nil
 
 /-! ### The ambient session invariants -/
 
-theorem Closed.and {P R : Session → Prop} (hp : Closed P) (hr : Closed R) : Closed (fun s => P s ∧ R s) where
+theorem Closed.and_w {P R : Session → Prop} (hp : Closed P) (hr : Closed R) : Closed (fun s => P s ∧ R s) where
   queuePing := fun s now s' h hq => ⟨hp.queuePing s now s' h.1 hq, hr.queuePing s now s' h.2 hq⟩
   completeFlush := fun s pkt now h => ⟨hp.completeFlush s pkt now h.1, hr.completeFlush s pkt now h.2⟩
   setWritten := fun s pkt a c h => ⟨hp.setWritten s pkt a c h.1, hr.setWritten s pkt a c h.2⟩
@@ -80,7 +80,7 @@ theorem Closed.and {P R : Session → Prop} (hp : Closed P) (hr : Closed R) : Cl
 execution (`closed_FramedP`, `closed_IdInv`) that the wire argument relies on. -/
 def SP (s : Session) : Prop := FramedP s ∧ s.data.IdInv
 
-theorem closed_SP : Closed SP := Closed.and closed_FramedP closed_IdInv
+theorem closed_SP : Closed SP := Closed.and_w closed_FramedP closed_IdInv
 
 theorem SP_new (cfg : Cfg) : SP (Session.new cfg) :=
   ⟨⟨⟨ArenaInv_new cfg.tx, ⟨by simp [Session.new, Outbound.new], by simp [Session.new, Outbound.new]⟩⟩,
@@ -1062,7 +1062,7 @@ theorem wire_performStep (fuel : Nat) (ih : MachineW fuel) :
   split
   · exact Post.live_finishErr _ _ h
   · rename_i hprep
-    exact absurd (prepareStep_done w step hprep) (nextStep_not_sent _ _ hn)
+    exact absurd (prepareStep_done w step hprep) (sf_nextStep_not_sent _ _ hn)
   · rename_i pkt hprep
     obtain ⟨hp1, hp2⟩ := prepareStep_flush w step hprep
     split
